@@ -1,10 +1,11 @@
 #!/bin/bash
 # usage: tools/seeded_regress.sh [id-prefix]   - applies every seeded change to /repo in turn, runs the quick check of
-# the property it breaks, restores /repo, and prints CAUGHT/MISSED per change.
+# the property it breaks (or the checks named in meta.json "regress_with"), restores /repo, prints CAUGHT/MISSED.
 cd /verif
 for d in seeded/${1}*/; do
-  id=$(basename $d); P=$(/venv/bin/python -c "import json;print(json.load(open('$d/meta.json'))['breaks_property'])")
-  r=$(tools/try_patch.sh $d/patch.diff $P 2>&1 | grep "^== " | head -1)
+  id=$(basename $d)
+  P=$(/venv/bin/python -c "import json;m=json.load(open('$d/meta.json'));print(' '.join(m.get('regress_with') or [m['breaks_property']]))")
+  r=$(tools/try_patch.sh $d/patch.diff $P 2>&1 | grep "^== " | tr '\n' ' ')
   echo "$id $r"
 done
 git -C /repo status --short | head -3
